@@ -146,6 +146,10 @@ func genC16(rng *prng.R, idx int) *c16case {
 				pre = "skip:"
 			}
 			key.Key = fmt.Sprintf("%ss%d-%d-%s", pre, s, k, rng.Alpha(2, "abxy"))
+			if src.KeyFile && k == 1 {
+				// a key name longer than any reader's default buffer (a key file line of several kilobytes)
+				key.Key += ":" + string(rng.Alpha(rng.Pick(4090, 5000, 20000), "abcdefghijklmnopqrstuvwxyz0123456789"))
+			}
 			key.TTL = rng.PickS("none", "none", "long")
 			switch rng.Intn(12) {
 			case 0:
